@@ -35,6 +35,7 @@ type InternalAgent struct {
 
 // NewInternalAgent returns new instance of a named agent
 func NewInternalAgent(name string, initFlow InitFlowSynchronization, invokeFlow InvokeFlowSynchronization) *InternalAgent {
+	verifAt("core.newInternalAgent")
 	agent := &InternalAgent{
 		Name:          name,
 		ID:            uuid.New(),
